@@ -18,7 +18,7 @@ git apply "$dst/patch.diff" || { echo "patch does not apply"; exit 2; }
 : > "$dst/check_result.txt"
 for p in "$@"; do
   echo "== ./vcheck $p (VERIF_SEED=${VERIF_SEED:-1}) with the seeded change applied to /repo" >> "$dst/check_result.txt"
-  ( cd /verif && ./vcheck $p 2>&1 | grep -v "^INCONC\|^KNOWN" | cut -c1-400 | tail -14 ; echo "exit=${PIPESTATUS[0]}" ) >> "$dst/check_result.txt"
+  ( cd /verif && ./vcheck $p 2>&1 | grep -A2 "^VIOLATION\|^C[0-9][0-9] [a-z]*:" | grep -v "^--" | cut -c1-400 | tail -14 ; echo "exit=${PIPESTATUS[0]}" ) >> "$dst/check_result.txt"
 done
 git -C /repo checkout -- .
 grep -c "^VIOLATION" "$dst/check_result.txt"
